@@ -19,7 +19,8 @@ PROPERTY = "C05"
 RULE = (
     "history = sequence (<=25 quick / <=60 thorough steps) of {with <spec>, leave (normal | by exception), "
     "global-activate <spec>, global-deactivate <any active>, call <plan>, refused activation <kind>, "
-    "fresh-probe probe, start / advance / close / drop a generator object} over 12 probe specs with overlapping "
+    "fresh-probe probe, start / advance / close / drop a generator object, activate / deactivate a global probe "
+    "from inside a running call} over 12 probe specs with overlapping "
     "selectors on fa/fb/fc/ga (immediate, chain, sibling calls, total, overridable, two-selector, strict reducer). evaluations = operations applied. A history is "
     "non-trivial when a call happens after a non-LIFO deactivation, after an exceptional exit or after a "
     "refused activation, with >=2 probes having been active together, or a generator object lives across a "
@@ -73,14 +74,19 @@ BAD = {
 }
 
 
-def spec_expected(spec, trace):
-    """Time-ordered list of groups (multisets) this probe must receive for one call."""
+def spec_expected(spec, trace, after=None, before=None):
+    """Time-ordered list of groups (multisets) this probe must receive for one call.  after /
+    before (immediate specs only): the probe is activated / deactivated at that time, from inside
+    the call - it hears the activations entered after `after`, and nothing from `before` on."""
     timed = []
+    within = None if after is None else (lambda t: t > after)
     for sel in spec["sels"]:
         if spec["mode"] == "imm":
-            timed += M.immediate_events(sel, trace, with_time=True)
+            timed += M.immediate_events(sel, trace, within=within, with_time=True)
         else:
             timed += M.total_records(sel, trace, with_time=True)
+    if before is not None:
+        timed = [(t, g) for t, g in timed if t < before]
     timed.sort(key=lambda tg: tg[0])
     out = []
     last_t = None
@@ -215,6 +221,108 @@ class Sim:
         except BaseException as e:
             raise PropertyViolation("deactivate", f"deactivating global {rec.spec['name']} raised {HY.describe_exc(e)}",
                                     extra={"bucket": "gdeact:" + HY.exc_bucket(e)})
+
+    # activation / deactivation of a global probe from *inside* an instrumented call
+    def _incall(self, roots, k, action):
+        """Run `roots` with a callback node inserted into the k-th activation; returns
+        (trace, t_cb) after registering `action` as the callback (t_cb None: never reached)."""
+        roots = copy.deepcopy(roots)
+        nodes = []
+
+        def walk(n):
+            nodes.append(n)
+            for c in n["pre"] + n["post"]:
+                walk(c)
+
+        for r in roots:
+            walk(r)
+        host = nodes[k % len(nodes)]
+        host["pre"].insert(0, {"id": 995, "fn": "cb5", "u0": 9951, "w0": 9955, "ru": None, "rw": None, "pre": [],
+                               "post": [], "via": False, "catch": False, "raises": False, "ret": 9959})
+        trace = M.simulate(roots)
+        t_cb = next((b.t for b in trace.binds if b.act.fn == "cb5"), None)
+        return roots, trace, t_cb
+
+    def _drive_incall(self, roots, action):
+        err = []
+
+        def cb(node):
+            try:
+                action()
+            except BaseException as e:  # noqa
+                err.append(e)
+            return node["ret"]
+
+        F.DISPATCH["cb5"] = cb
+        try:
+            out = F.drive(roots)
+        except BaseException as e:
+            raise PropertyViolation("call", f"driver raised {HY.describe_exc(e)}", extra={"bucket": "call:" + HY.exc_bucket(e)})
+        finally:
+            F.DISPATCH.pop("cb5", None)
+        if err:
+            e = err[0]
+            if isinstance(e, PropertyViolation):
+                raise e
+            raise PropertyViolation("activate", f"(de)activation inside a call raised {HY.describe_exc(e)}",
+                                    extra={"bucket": "incall:" + HY.exc_bucket(e)})
+        want = []
+        for r in roots:
+            e = M.escaping(r)
+            want.append(("boom", e) if e is not None else ("ret", r["ret"]))
+        if out != want:
+            raise PropertyViolation("call", f"outcomes {out!r}, expected {want!r}")
+
+    def op_gact_in(self, si, roots, k):
+        spec = SPECS[si]
+        if spec["mode"] != "imm" or spec.get("reducer"):
+            return self.op_gact(si)
+        roots2, trace, t_cb = self._incall(roots, k, None)
+        if t_cb is None:
+            return self.op_call(roots)
+        rec = Rec(len(self.recs), si, "global")
+        self.recs.append(rec)
+        self._make(rec, True)
+        for r in self.recs:
+            if r.active:
+                r.expected.extend(spec_expected(r.spec, trace))
+        rec.expected.extend(spec_expected(spec, trace, after=t_cb))
+
+        def action():
+            rec.probe.activate()
+            rec.sink = rec.probe.accum()
+            rec.active = True
+            self.globals.append(rec)
+            self._note_active()
+
+        self._drive_incall(roots2, action)
+        self.flags.add("activated-inside-call")
+        if self.max_active >= 2:
+            self.flags.add("nontrivial")
+
+    def op_gdeact_in(self, gi, roots, k):
+        if not self.globals:
+            return self.op_call(roots)
+        rec = self.globals[gi % len(self.globals)]
+        if rec.spec["mode"] != "imm":
+            return self.op_gdeact(gi)
+        roots2, trace, t_cb = self._incall(roots, k, None)
+        if t_cb is None:
+            return self.op_call(roots)
+        for r in self.recs:
+            if r.active and r is not rec:
+                r.expected.extend(spec_expected(r.spec, trace))
+        rec.expected.extend(spec_expected(rec.spec, trace, before=t_cb))
+
+        def action():
+            self.globals.remove(rec)
+            rec.active = False
+            rec.probe.deactivate()
+
+        self._drive_incall(roots2, action)
+        self.flags.add("deactivated-inside-call")
+        if self.max_active >= 2:
+            self.flags.add("nontrivial")
 
     def op_call(self, roots):
         trace = M.simulate(roots)
@@ -676,6 +784,15 @@ def make_machine(rec, steps):
         def call(self, roots):
             self._do(("call", roots))
 
+        @rule(si=st.integers(0, len(SPECS) - 1), roots=plans, k=st.integers(0, 5))
+        def gact_in(self, si, roots, k):
+            self._do(("gact_in", si, roots, k))
+
+        @precondition(lambda self: self.sim.globals)
+        @rule(gi=st.integers(0, 5), roots=plans, k=st.integers(0, 5))
+        def gdeact_in(self, gi, roots, k):
+            self._do(("gdeact_in", gi, roots, k))
+
         @rule(kind=st.sampled_from(sorted(BAD)))
         def bad(self, kind):
             self._do(("bad", kind))
@@ -705,6 +822,10 @@ def _brief(op):
         return ["call", T.plan_brief(op[1])]
     if op[0] in ("with", "gact"):
         return [op[0], SPECS[op[1]]["name"]]
+    if op[0] == "gact_in":
+        return ["gact_in", SPECS[op[1]]["name"], T.plan_brief(op[2]), op[3]]
+    if op[0] == "gdeact_in":
+        return ["gdeact_in", op[1], T.plan_brief(op[2]), op[3]]
     if op[0] == "ov":
         return ["overlay", SPECS[op[1] % 7]["name"], "tap" if op[2] else "base"]
     return list(op)
